@@ -91,6 +91,7 @@ fn main() {
                 o.direct(false, "C04: the library panicked in a call made by the harness", last, msg, "no panic".into());
                 o.notes.push("generation stopped early: a library call panicked".into());
             }
+            if r.is_ok() { let rr = std::panic::catch_unwind(std::panic::AssertUnwindSafe(|| o.purity_recheck(seed))); let _ = rr; }
             o.write(dir);
         }
         "extract" => { for f in extract::run(&args[2]) { println!("{}", f); } }
